@@ -67,6 +67,18 @@ func c07(r *Run) {
 	if dual {
 		form = 1
 	}
+	// where the process-wide id counter stands when this node starts querying: at 0, or just
+	// below a point where ids grow by a byte, or anywhere
+	switch ch.Pick([]int{3, 2, 2, 1, 1}, "ids.start") {
+	case 1:
+		SetNextTransactionID(uint64(128 - ch.Range(0, 12, "ids.off")))
+	case 2:
+		SetNextTransactionID(uint64(16384 - ch.Range(0, 12, "ids.off")))
+	case 3:
+		SetNextTransactionID(uint64(2097152 - ch.Range(0, 12, "ids.off")))
+	case 4:
+		SetNextTransactionID(uint64(r.Rng.Int63()))
+	}
 	ncalls := ch.Range(1, 12, "calls")
 	ndest := ch.Range(1, ncalls, "dests")
 	var dests []*net.UDPAddr
@@ -79,6 +91,8 @@ func c07(r *Run) {
 	returned := map[string]int{} // marker -> how many calls returned it
 	span := time.Duration(ch.Range(1, 6, "span.s")) * time.Second
 
+	floodMarker := r.RandID()
+	floodSeen := 0
 	var send func(c *c07call, kind int)
 	r.Tap = func(wr *core.Write) bool {
 		if wr.D == nil {
@@ -89,6 +103,18 @@ func c07(r *Run) {
 		}
 		a, _ := wr.D.Dict("a")
 		mk, _ := a.Str("target")
+		if mk == string(floodMarker[:]) {
+			// one of the many short-lived queries of the id-space flood: its id must not be
+			// that of any query still outstanding
+			ft, _ := wr.D.Str("t")
+			floodSeen++
+			for _, o := range calls {
+				if o.haveT && o.t == ft && o.call != nil && !r.CallDone(o.call) && !o.matched {
+					r.Violate("shared-transaction-id", "call %d is still outstanding with t=%x and a later query (number %d of a burst) is sent with the same id", o.idx, ft, floodSeen)
+				}
+			}
+			return false
+		}
 		c := byMarker[mk]
 		if c == nil {
 			r.Violate("unattributable-query", "the server wrote a query that belongs to no call: %s", r.Summ(wr.D, wr.B, wr.ToStr, true))
@@ -316,6 +342,29 @@ func c07(r *Run) {
 					cancel()
 				})
 			}
+		})
+	}
+	// rarely: while the calls above are outstanding, the node issues more ids than two bytes can
+	// hold (16 500 further queries whose writes fail at once, so they cost no fake time)
+	if !r.YieldMode && ch.Chance(1, 60, "ids.flood") {
+		fdest := r.Addr(form)
+		conn.Fault = func(i int, b []byte, to net.Addr) (bool, bool) {
+			d, err := benc.DecodeDict(b)
+			if err != nil {
+				return false, false
+			}
+			a, _ := d.Dict("a")
+			mk, _ := a.Str("target")
+			return mk == string(floodMarker[:]), false
+		}
+		r.After(time.Duration(r.Rng.Int63n(int64(span))), "id-flood", func() {
+			r.Probe("id-space-flood")
+			r.Go("idflood", func() any {
+				for i := 0; i < 16500; i++ {
+					s.Query(context.Background(), dht.NewAddr(fdest), "ping", dht.QueryInput{MsgArgs: krpc.MsgArgs{Target: floodMarker}, NumTries: 1})
+				}
+				return nil
+			})
 		})
 	}
 	// schedule the adversarial / genuine stream
